@@ -57,7 +57,7 @@ theorem full24_shank (cfg : Cfg) (call : Call) (s : Disk) (i : Nat) (hi : i < cf
     omega
 
 theorem splitDiffers_false_iff (cfg : Cfg) (call : Call) :
-    splitDiffers cfg call = false ↔ ∀ i, i < cfg.n → altered cfg call i = false := by
+    splitDiffers cfg call = false ↔ cfg.partialSel = false ∧ ∀ i, i < cfg.n → altered cfg call i = false := by
   simp [splitDiffers, List.any_eq_false]
 
 theorem apData_good (cfg : Cfg) (call : Call) (i : Nat) (h : altered cfg call i = false) : apData cfg call i = .good cfg.c := by
@@ -201,7 +201,7 @@ theorem S4_shank_complete_good (cfg : Cfg) (ob : Obj) (call : Call) (s : Disk) (
     ∃ sh, (S4 cfg ob call s (2 * cfg.n)).shanks i = some sh ∧
       FilesComplete ob.opts.compress (.good cfg.c) sh.ap ∧ FilesComplete ob.opts.compress (.good cfg.c) sh.lf := by
   obtain ⟨sh, h1, h2, h3⟩ := S4_shank_complete cfg ob call s i hi
-  rw [apData_good cfg call i ((splitDiffers_false_iff cfg call).mp hd i hi)] at h2
+  rw [apData_good cfg call i (((splitDiffers_false_iff cfg call).mp hd).2 i hi)] at h2
   exact ⟨sh, h1, h2, h3⟩
 
 theorem S1_isSome (cfg call s i) (hi : i < cfg.n) : ((S1 cfg call s).shanks i).isSome = true := by
@@ -685,10 +685,10 @@ theorem run_recoverable (cfg : Cfg) (hn : 0 < cfg.n) (call : Call) (st : St) (hs
     have hoh : OrigHolds st.disk := (hok.2.1 ho ((apFileExists_iff _ ob hok ho).mp he)).2
     cases hk : cfg.kind
     · rw [processObj_np24 cfg ob call _ ho hk he]
-      rcases process24_orig cfg ob call st.disk hok.1 with ⟨a, b⟩ | ⟨_, _, _, _, _, e⟩
+      rcases process24_orig cfg ob call st.disk hok.1 with ⟨a, b⟩ | ⟨_, _, hsd, _, _, e⟩
       · exact Or.inl (origHolds_of_eq hoh a b)
       · right
-        refine ⟨hk, hn, fun i hi => ?_⟩
+        refine ⟨hk, ((splitDiffers_false_iff cfg call).mp hsd).1, hn, fun i hi => ?_⟩
         obtain ⟨sh, a, b, _⟩ := e i hi
         exact ⟨sh, a, b.holds.1, b.holds.2⟩
     · rw [processObj_np21 cfg ob call _ ho hk he]
